@@ -100,7 +100,7 @@ TemplateFunction Model::getDefinition(SymRef sr) const {
         return symDef.at(sr);
     } else {
         // A query for a function not known to egraph.  We create a default function.
-        std::string symName = logic.getSymName(sr);
+        std::string symName = logic.protectName(sr);
         vec<PTRef> formalArgs;
         formalArgs.growTo(logic.getSym(sr).nargs());
         std::string varNameBase = getFormalArgBaseNameForSymbol(logic, sr, formalArgDefaultPrefix);
